@@ -207,3 +207,71 @@ class ComputeCopyNames(Contract):
         return [Case("names", [gfa, Ref(z3.IntVal(-7)), factor], post, pre=[factor >= 2], zh=h0, heap={gfa.oid: {}}, models=models, invariants=inv,
                      options=dict(alloc_lists=True, opaque_elems=True, format_model=fmt), symbols=dict(factor=factor), minimize=[factor],
                      replay=lambda w: {"target": "bounded.replay_helpers:multiply_orchestration_cases"}, confirm=battery_confirm)]
+
+
+@register
+class DivideSegmentAndConnectionCounts(Contract):
+    fn = "gfapy/graph_operations/multiplication.py::Multiplication._Multiplication__divide_segment_and_connection_counts"
+    props = ("C15",)
+    fragment = "L"
+    doc = ("the counts of the multiplied segment are divided once, and those of EVERY dovetail and containment of the segment exactly once - "
+           "also of an edge of the segment with itself, which is listed twice among its edges (loop invariant over the list of edges, with the "
+           "list of the self-edges already processed; precondition from the reference-graph invariant: only an edge of the segment with itself "
+           "is listed more than once)")
+
+    def cases(self, ctx):
+        g = ctx.gfapy
+        n, factor = z3.Int("n_edges_listed"), z3.Int("factor")
+        el = z3.Const("edge_at", AII)
+        circ = z3.Const("edge_is_circular", AIB)
+        k, j, j2, e_ = z3.Int("k"), z3.Int("j"), z3.Int("j2"), z3.Int("e")
+        SEG = z3.IntVal(-3)
+        edges = SList(n, el, lambda t: Ref(t, g.line.edge.Link))
+        gfa, seg = Obj(g.Gfa, "gfa"), Ref(SEG)
+        h0 = {"L_n": z3.Const("L_n", AII), "L_e": z3.Const("L_e", z3.ArraySort(I, AII)), "next_list": z3.Int("next_list"), "ndiv": z3.K(I, z3.IntVal(0)),
+              "divisor": z3.K(I, z3.IntVal(0))}
+        pid = h0["next_list"]
+        class SegAttr:
+            pass
+        def m_div(E, st, pos, kw):
+            t = pos[1].t
+            zh = dict(st.zh)
+            zh["ndiv"] = z3.Store(zh["ndiv"], t, zh["ndiv"][t] + 1)
+            zh["divisor"] = z3.Store(zh["divisor"], t, S(pos[2]))
+            yield ("val", None, [], st.with_zh(zh))
+        def m_circ(E, st, pos, kw):
+            yield ("val", circ[pos[0].t], [])
+        models = {ctx.fn("gfapy/graph_operations/multiplication.py::Multiplication._Multiplication__divide_counts"): m_div,
+                  ctx.fn("gfapy/line/edge/common/from_to.py::FromTo.is_circular"): m_circ}
+        occurs = lambda e, upto: z3.Exists([j], z3.And(0 <= j, j < upto, el[j] == e))
+        def state_ok(st, upto):
+            zh = st.zh
+            return z3.And(zh["ndiv"][SEG] == 1, zh["divisor"][SEG] == factor,
+                          z3.ForAll([e_], z3.Implies(e_ != SEG, z3.And(zh["ndiv"][e_] == z3.If(occurs(e_, upto), 1, 0),
+                                                                      z3.Implies(occurs(e_, upto), zh["divisor"][e_] == factor)))))
+        def inv0(i, st):
+            zh = st.zh
+            np_ = zh["L_n"][pid]
+            # the list of processed self-edges holds exactly the circular edges seen so far
+            plist = z3.And(np_ >= 0, zh["next_list"] == h0["next_list"] + 1,
+                           z3.ForAll([j2], z3.Implies(z3.And(0 <= j2, j2 < np_), z3.And(circ[zh["L_e"][pid][j2]], occurs(zh["L_e"][pid][j2], i)))),
+                           z3.ForAll([j], z3.Implies(z3.And(0 <= j, j < i, circ[el[j]]), z3.Exists([j2], z3.And(0 <= j2, j2 < np_, zh["L_e"][pid][j2] == el[j])))))
+            return z3.And(i <= n, state_ok(st, i), plist)
+        inv = {("Multiplication.__divide_segment_and_connection_counts", 0): dict(inv=inv0, modheap=["ndiv", "divisor", "L_n", "L_e"], mod={"l": lambda nm: Ref(fresh(nm, I), g.line.edge.Link)})}
+        def post(kd, v, st):
+            return state_ok(st, n) if kd == "return" else z3.BoolVal(False)
+        pre = [n >= 0, factor >= 2, z3.ForAll([j], z3.Implies(z3.And(0 <= j, j < n), el[j] != SEG)),
+               z3.ForAll([j, j2], z3.Implies(z3.And(0 <= j, j < j2, j2 < n, el[j] == el[j2]), circ[el[j]]))]
+        class SegObj:
+            """the segment: .dovetails + .containments is the list of its edges"""
+            t = SEG
+            def pyvc_attr(self, E, attr, st):
+                if attr == "dovetails":
+                    yield ("val", edges, st)
+                elif attr == "containments":
+                    yield ("val", SList(z3.IntVal(0), el, lambda t: Ref(t, g.line.edge.Link)), st)
+                else:
+                    raise Unsupported("segment.%s" % attr)
+        return [Case("edges", [gfa, SegObj(), factor], post, pre=pre, zh=h0, heap={gfa.oid: {}}, models=models, invariants=inv,
+                     options=dict(alloc_lists=True, opaque_elems=True), symbols=dict(n_edges_listed=n, factor=factor), minimize=[n],
+                     replay=lambda w: {"target": "bounded.replay_helpers:multiply_orchestration_cases"}, confirm=battery_confirm)]
